@@ -154,6 +154,8 @@ def units():
             Unit("update[screening, static A]", U, _upd(True, False), props=["C13"], timeout=900),
             Unit("update[screening, dynamic A]", U, _upd(True, True), props=["C13"], timeout=900),
             Unit("update[no screening, static A]", U, _upd(False, False), props=["C13"], timeout=900),
+            Unit("Mesh.get_quantity_on_site", "tdgl.finite_volume.mesh:Mesh.get_quantity_on_site",
+                 lambda m=None: __import__("checks.solution_common", fromlist=["x"]).run_site_average(m, prefixes=("C13.",)), props=["C13", "C20"], timeout=300),
             _h.bounded_unit("screening kernel, Polyak step and convergence on real runs [bounded]", "tdgl.solver.screening / TDGLSolver.get_induced_vector_potential (real)", "C13", _bounded_quick, "kernel_polyak_iteration_and_convergence_rule_on_the_real_solver", timeout=900)]
 
 
@@ -279,6 +281,11 @@ def replay_scope(unit, obl):
 
 def replay(unit, obl):
     import tdgl
+    if unit == "Mesh.get_quantity_on_site":
+        from checks import solution_common as sc
+        bad, n = sc.native_site_average(0)
+        if bad:
+            return dict(confirmed=True, failing_input=bad[0], n_failing=len(bad), evaluations=n, tdgl_file=tdgl.__file__)
     bad, n = native(0)
     if bad:
         return dict(confirmed=True, failing_input=bad[0], n_failing=len(bad), evaluations=n, tdgl_file=tdgl.__file__)
@@ -287,6 +294,8 @@ def replay(unit, obl):
 
 S_ = "tdgl.solver.solver"
 MUTANTS = [
+    dict(name="site average: mean over the start sites only", edits=[("tdgl.finite_volume.mesh", "vertices = xp.concatenate([edges[:, 0], edges[:, 1]])", "vertices = xp.concatenate([edges[:, 0], edges[:, 0]])")], units=["Mesh.get_quantity_on_site"]),
+    dict(name="site average: sum instead of mean", edits=[("tdgl.finite_volume.mesh", "x_group_values = xp.bincount(vertices, weights=x_values) / counts", "x_group_values = xp.bincount(vertices, weights=x_values)")], units=["Mesh.get_quantity_on_site"]),
     dict(name="kernel 1/r^2", edits=[(M, "tmp += J_site[j, k] * site_areas[j] / dr", "tmp += J_site[j, k] * site_areas[j] / (dr * dr)")]),
     dict(name="kernel area of the wrong index", edits=[(M, "tmp += J_site[j, k] * site_areas[j] / dr", "tmp += J_site[j, k] * site_areas[i] / dr")]),
     dict(name="kernel accumulator not reset per component", edits=[(M, "        for k in range(J_site.shape[1]):\n            tmp = 0.0\n", "        tmp = 0.0\n        for k in range(J_site.shape[1]):\n")]),
